@@ -1,4 +1,5 @@
 import SockModel.Model.SendLoopLemmas
+import SockModel.Generated.Funcs
 /-!
 # C01  TCP byte-stream integrity and exact send accounting
 
@@ -339,3 +340,22 @@ example : wire (sendAll [1, 2, 3, 4, 5] { polls := [.ready 0, .ready 0], sends :
     = [1, 2] := by decide
 
 end SockModel.SendLoop
+
+/-! ## Source-derived tie (DESIGN.md §0.7)
+
+`SockModel.Gen.*` (Generated/Funcs.lean) is regenerated on every run by tools/cxx2lean.py from the clang AST of
+the CURRENT /repo/src: the timeout-sign dispatch of SocketImpl::Send (socket_impl.cpp).
+Each theorem below states that the generated function and the hand-written model function agree for ALL
+arguments; a change of the C++ function changes the generated definition and the theorem stops checking. -/
+namespace SockModel.Props.C01
+open SockModel SockModel.SendLoop
+theorem tie_send_dispatch (data : Bytes) (t : Int) (os : Os) :
+    send data t os =
+      match Gen.Send_dispatch t with
+      | .sendAll => sendAll data os
+      | .sendTry => sendTry data os
+      | .sendSomeLimited => sendSome data t os := by
+  simp only [send, Gen.Send_dispatch]
+  repeat' split
+  all_goals simp_all
+end SockModel.Props.C01
